@@ -2,24 +2,35 @@
 // For every duplicate-free ordered list over the three service names (16 lists) it
 // builds the real gin engine with newRouter (hook NewRouterForVerif), enumerates
 // engine.Routes(), and - with OAuth2Required = true and a real RSA key as NRF
-// certificate - sends every (method, path) with five kinds of bad bearer token
-// through httptest.  Output: coq/Router/RoutesGen.v (routes per list and probe
-// results) and a summary on stdout.
+// certificate - sends every (method, path) with seven kinds of bad bearer token
+// through httptest, in three modes: the order of the real start-up (router built
+// while OAuth2Required is still false, the flag set by the NRF registration
+// afterwards), the flag set before the router is built, and the flag set with no
+// NRF certificate configured.  A probe counts as refused only if the answer is
+// 401, its body is the single problem object, no later handler wrote anything
+// (gin's "headers were already written" warning), no subscriber context was
+// created or changed and no notification left.  Output: coq/Router/RoutesGen.v
+// (routes per list and probe results; status 1000+code = answered code but a
+// handler ran) and a summary on stdout.
 package main
 
 import (
+	"bytes"
 	"context"
 	"crypto/rand"
 	"crypto/rsa"
 	"crypto/x509"
+	"encoding/json"
 	"encoding/pem"
 	"fmt"
 	"io"
+	"net/http"
 	"net/http/httptest"
 	"os"
 	"path/filepath"
 	"sort"
 	"strings"
+	"sync/atomic"
 	"time"
 
 	"github.com/gin-gonic/gin"
@@ -34,7 +45,10 @@ import (
 	"github.com/free5gc/chf/pkg/factory"
 )
 
-type app struct{ ctx context.Context }
+type app struct {
+	ctx  context.Context
+	proc *processor.Processor
+}
 
 func (a *app) SetLogEnable(bool)                {}
 func (a *app) SetLogLevel(string)               {}
@@ -44,7 +58,7 @@ func (a *app) Terminate()                       {}
 func (a *app) Context() *chf_context.CHFContext { return chf_context.GetSelf() }
 func (a *app) Config() *factory.Config          { return factory.ChfConfig }
 func (a *app) Consumer() *consumer.Consumer     { return nil }
-func (a *app) Processor() *processor.Processor  { return nil } // a handler that runs would panic: 500, not 401
+func (a *app) Processor() *processor.Processor  { return a.proc }
 func (a *app) CancelContext() context.Context   { return a.ctx }
 
 var names = []string{"nchf-convergedcharging", "nchf-offlineonlycharging", "nchf-spendinglimitcontrol"}
@@ -92,8 +106,6 @@ func main() {
 	}
 	chf_context.Init()
 	self := chf_context.GetSelf()
-	self.OAuth2Required = true
-	self.NrfCertPem = certPath
 
 	claims := jwt.MapClaims{"sub": "smf", "aud": "CHF", "scope": strings.Join(names, " "), "exp": time.Now().Add(time.Hour).Unix()}
 	sign := func(m jwt.SigningMethod, key interface{}) string {
@@ -115,46 +127,116 @@ func main() {
 	valid := "Bearer " + sign(jwt.SigningMethodRS512, nrfKey)
 
 	a := &app{ctx: context.Background()}
+	if p, err := processor.NewProcessor(a); err == nil {
+		a.proc = p
+	} else {
+		panic(err)
+	}
+	// where a recharge notification would go
+	var notes int64
+	stub := httptest.NewServer(http.HandlerFunc(func(w http.ResponseWriter, r *http.Request) {
+		atomic.AddInt64(&notes, 1)
+		w.WriteHeader(204)
+	}))
+	defer stub.Close()
+	const planted = "imsi-208930000000001"
+	plant := func() {
+		self.UePool.Range(func(k, v interface{}) bool { self.UePool.Delete(k); return true })
+		ue, err := self.NewCHFUe(planted)
+		if err != nil {
+			panic(err)
+		}
+		ue.NotifyUri = stub.URL + "/cb"
+		ue.RatingType[1] = 2 // DEBIT: a recharge that runs flips it to RESERVE
+	}
+	untouched := func() bool {
+		n := 0
+		self.UePool.Range(func(k, v interface{}) bool { n++; return true })
+		ue, ok := self.ChfUeFindBySupi(planted)
+		return n == 1 && ok && ue.RatingType[1] == 2 && len(ue.Cdr) == 0 && len(ue.Records) == 0 && atomic.LoadInt64(&notes) == 0
+	}
+	var ginOut bytes.Buffer
+	gin.SetMode(gin.DebugMode)
+	gin.DefaultWriter = &ginOut
+	gin.DefaultErrorWriter = &ginOut
+
+	modes := []struct {
+		name        string
+		flagAtBuild bool
+		cert        string
+	}{
+		{"startup-order", false, certPath}, // NewServer builds the router, Run() registers at the NRF, which sets the flag
+		{"flag-before-build", true, certPath},
+		{"no-nrf-certificate", false, ""},
+	}
 	var sb strings.Builder
 	sb.WriteString("(* Generated by harness/cmd/routeprobe from the real gin engine of /repo. DO NOT EDIT. *)\nFrom Coq Require Import List String ZArith.\nFrom Verif Require Import Router.Model.\nImport ListNotations.\nOpen Scope string_scope.\n\n")
-	sb.WriteString("(* for each service list: the routes registered by newRouter, and for every route and bad-token kind the status answered *)\nDefinition observed : list (list string * list (string * string) * list (string * string * string * Z)) := [\n")
+	sb.WriteString("(* for each service list: the routes registered by newRouter, and for every route, mode and bad-token kind the status answered\n   (1000 + status: that status was answered but a handler behind the check ran) *)\nDefinition observed : list (list string * list (string * string) * list (string * string * string * Z)) := [\n")
 	nroutes, nprobes, bad, control := 0, 0, 0, 0
 	for li, l := range lists() {
 		factory.ChfConfig.Configuration.ServiceNameList = l
-		engine := sbi.NewRouterForVerif(a)
-		rs := engine.Routes()
-		sort.Slice(rs, func(i, j int) bool {
-			if rs[i].Path != rs[j].Path {
-				return rs[i].Path < rs[j].Path
-			}
-			return rs[i].Method < rs[j].Method
-		})
 		var routeS, probeS []string
-		for _, r := range rs {
-			nroutes++
-			routeS = append(routeS, fmt.Sprintf("(%s, %s)", coqStr(r.Method), coqStr(r.Path)))
-			path := strings.ReplaceAll(strings.ReplaceAll(strings.ReplaceAll(strings.ReplaceAll(r.Path, ":ChargingDataRef", "ref1"), ":rechargingInfo", "imsi-208930000000001_1"), ":OfflineChargingDataRef", "ref2"), ":subscriptionId", "sub1")
-			for _, tk := range tokens {
-				req := httptest.NewRequest(r.Method, path, strings.NewReader("{}"))
-				if tk.header != "" {
-					req.Header.Set("Authorization", tk.header)
+		for mi, md := range modes {
+			self.OAuth2Required = md.flagAtBuild
+			self.NrfCertPem = md.cert
+			engine := sbi.NewRouterForVerif(a)
+			self.OAuth2Required = true
+			rs := engine.Routes()
+			sort.Slice(rs, func(i, j int) bool {
+				if rs[i].Path != rs[j].Path {
+					return rs[i].Path < rs[j].Path
 				}
-				w := httptest.NewRecorder()
-				engine.ServeHTTP(w, req)
-				nprobes++
-				if w.Code != 401 {
-					bad++
+				return rs[i].Method < rs[j].Method
+			})
+			for _, r := range rs {
+				if mi == 0 {
+					nroutes++
+					routeS = append(routeS, fmt.Sprintf("(%s, %s)", coqStr(r.Method), coqStr(r.Path)))
 				}
-				probeS = append(probeS, fmt.Sprintf("(%s, %s, %s, %d%%Z)", coqStr(r.Method), coqStr(r.Path), coqStr(tk.kind), w.Code))
-			}
-			// positive control: a token signed by the NRF key is let through on the greeting routes
-			if r.Method == "GET" && strings.HasSuffix(r.Path, "/") {
-				req := httptest.NewRequest(r.Method, path, nil)
-				req.Header.Set("Authorization", valid)
-				w := httptest.NewRecorder()
-				engine.ServeHTTP(w, req)
-				if w.Code == 200 {
-					control++
+				path := strings.ReplaceAll(strings.ReplaceAll(strings.ReplaceAll(strings.ReplaceAll(r.Path, ":ChargingDataRef", planted+"smf1-0"), ":rechargingInfo", planted+"_1"), ":OfflineChargingDataRef", "ref2"), ":subscriptionId", "sub1")
+				body := `{"subscriberIdentifier":"imsi-208930000000002","nfConsumerIdentification":{"nFName":"smf1","nodeFunctionality":"SMF"},"invocationSequenceNumber":1,"chargingId":1}`
+				for _, tk := range tokens {
+					plant()
+					atomic.StoreInt64(&notes, 0)
+					ginOut.Reset()
+					req := httptest.NewRequest(r.Method, path, strings.NewReader(body))
+					req.Header.Set("Content-Type", "application/json")
+					if tk.header != "" {
+						req.Header.Set("Authorization", tk.header)
+					}
+					w := httptest.NewRecorder()
+					code := func() (code int) {
+						defer func() {
+							if recover() != nil {
+								code = 1000 + w.Code // a handler ran and panicked through the engine
+							}
+						}()
+						engine.ServeHTTP(w, req)
+						return w.Code
+					}()
+					time.Sleep(0)
+					var obj map[string]interface{}
+					dec := json.NewDecoder(bytes.NewReader(w.Body.Bytes()))
+					oneObject := dec.Decode(&obj) == nil && len(obj) == 1 && obj["error"] != nil && !dec.More()
+					clean := oneObject && !strings.Contains(ginOut.String(), "already written") && !strings.Contains(ginOut.String(), "panic") && untouched()
+					if code < 1000 && !clean {
+						code += 1000
+					}
+					nprobes++
+					if code != 401 {
+						bad++
+					}
+					probeS = append(probeS, fmt.Sprintf("(%s, %s, %s, %d%%Z)", coqStr(r.Method), coqStr(r.Path), coqStr(md.name+"/"+tk.kind), code))
+				}
+				// positive control: a token signed by the NRF key is let through on the greeting routes
+				if md.cert != "" && r.Method == "GET" && strings.HasSuffix(r.Path, "/") {
+					req := httptest.NewRequest(r.Method, path, nil)
+					req.Header.Set("Authorization", valid)
+					w := httptest.NewRecorder()
+					engine.ServeHTTP(w, req)
+					if w.Code == 200 {
+						control++
+					}
 				}
 			}
 		}
